@@ -189,4 +189,12 @@ func GetInstantiatedStructType [C15]
   loop 0 invariant forall k int :: 0 <= k && k <= rangeindex0 && k < len(s.Instantiations) ==>
                      !slices.eqAllBy(s.Instantiations[k].instantiatedWith, genericTypes, Equal)
   loop 0 invariant s.Instantiations == old(s.Instantiations)
+
+// "contains a type parameter somewhere below list levels / struct fields" (defined by CastDeeplyNestedGenerics itself)
+spec isGenericT(t Type) bool
+func CastDeeplyNestedGenerics
+  returns gs, ok
+  pure
+  trusted
+  ensures ok == isGenericT(t)
 @*/
